@@ -1054,3 +1054,13 @@ PROPS["C02"]["level_text"] += (" evaluated_constant_entry / branching_entry_not_
     "constant has an entry block that returns that constant, or that neither branches on a condition nor assigns a property read: a body whose entry "
     "block branches is never folded (the constant fast path looks at the entry block; tied by the eval field of the exact-IR stream).")
 PROPS["C01"]["rule"] += " A binding folded to a constant must have one defined specification value over all states of the batch (constant-but-state-dependent otherwise)."
+
+# ---- C01: statements in the end-to-end induction
+PROPS["C01"]["level_text"] += (" compile_correct_block_assign / compile_correct_block_if / compile_correct_block_early_return END-TO-END for blocks with "
+    "assignment to declared let variables (x = e;), if (e) { A } else { A } / if (e) { A } as statements (branch bodies A ::= x = e; …) and if branches "
+    "that return — early return if (e) { T }, and if/else with a returning consequence, alternative or both, T a statement list ending in return e. "
+    "Steps: walk_block_assign (one store into the variable's local, converted like Spec.Sem converts; VarInj: different names, different locals), "
+    "walk_block_if_else / walk_block_if (visit_if_statement wiring, variables related again at the join block), walk_block_if_return (invariant "
+    "restated on the RESULT of the run: ROk / RetAt, rOk_of_sOk). Inductions: walk_statements, walk_statements_if, walk_statements_return. "
+    "[updated] Not in the induction: typed/uninitialised declarations, declarations and nested ifs inside non-returning branch bodies, an if as the "
+    "last statement of the block, switch/break, float/string/null literals, calls, casts, subscripts.")
